@@ -9,20 +9,21 @@ Size == EnvInt("VERIF_QPOOL", 1)        \* 1 = quick pool, 2 = thorough pool
 Group == IF "VERIF_QOPS" \in DOMAIN IOEnv THEN IOEnv["VERIF_QOPS"] ELSE "all"
 
 MCFund == {"L", "T", "M"}
-BaseSeq == <<"ma", "mb", "mc", "sa", "sb", "ga", "gb", "fa">>
+BaseSeq == <<"ma", "mb", "mc", "md", "sa", "sb", "ga", "gb", "fa">>
 MCBase == {BaseSeq[i] : i \in 1..Len(BaseSeq)}
 D(l, t, m) == [L |-> l, T |-> t, M |-> m]
 MCbdim == [b \in MCBase |->
-   CASE b \in {"ma", "mb", "mc"} -> D(1, 0, 0) [] b \in {"sa", "sb"} -> D(0, 1, 0)
+   CASE b \in {"ma", "mb", "mc", "md"} -> D(1, 0, 0) [] b \in {"sa", "sb"} -> D(0, 1, 0)
      [] b \in {"ga", "gb"} -> D(0, 0, 1) [] b = "fa" -> D(1, -2, 1)]
 MCbsize == [b \in MCBase |->
-   CASE b = "ma" -> <<0, 0, 0>> [] b = "mb" -> <<-2, 0, 0>> [] b = "mc" -> <<3, 0, 0>>
+   CASE b = "ma" -> <<0, 0, 0>> [] b = "mb" -> <<-2, 0, 0>> [] b = "mc" -> <<3, 0, 0>> [] b = "md" -> <<4, 0, 0>>
      [] b = "sa" -> <<0, 0, 0>> [] b = "sb" -> <<6, 0, 0>> [] b = "ga" -> <<0, 0, 0>>
      [] b = "gb" -> <<10, 0, 0>> [] b = "fa" -> <<11, 0, 0>>]
 \* the declarations that realise these sizes in the library: [l, value as 2^e, rhs bag]
 Bag(S) == [b \in MCBase |-> IF \E x \in S : x[1] = b THEN (CHOOSE x \in S : x[1] = b)[2] ELSE 0]
 Decls == << [l |-> "mb", e |-> -2, r |-> Bag({<<"ma", 1>>})], [l |-> "mc", e |-> 3, r |-> Bag({<<"ma", 1>>})],
             [l |-> "mc", e |-> 5, r |-> Bag({<<"mb", 1>>})], [l |-> "sb", e |-> 6, r |-> Bag({<<"sa", 1>>})],
+            [l |-> "md", e |-> 1, r |-> Bag({<<"mc", 1>>})],      \* md = 2 mc ONLY: md is two hops away from ma and mb
             [l |-> "gb", e |-> 10, r |-> Bag({<<"ga", 1>>})],
             [l |-> "fa", e |-> 1, r |-> Bag({<<"gb", 1>>, <<"ma", 1>>, <<"sa", -2>>})] >>
 UU(p10, p2, S) == [p10 |-> p10, p2 |-> p2, f |-> Bag(S)]
@@ -30,12 +31,12 @@ AllUnits == <<
   UU(0, 0, {<<"ma", 1>>}), UU(0, 0, {<<"mb", 1>>}), UU(3, 0, {<<"ma", 1>>}), UU(0, 10, {<<"mb", 1>>}),
   UU(0, 0, {<<"sa", 1>>}), UU(0, 0, {<<"ma", 1>>, <<"sa", -1>>}), UU(0, 0, {<<"mb", 1>>, <<"sb", -1>>}),
   UU(0, 0, {<<"gb", 1>>}), UU(0, 0, {<<"fa", 1>>}), UU(0, 0, {<<"gb", 1>>, <<"ma", 1>>, <<"sa", -2>>}),
-  UU(0, 0, {}), UU(0, 0, {<<"ma", 2>>}), UU(3, 0, {<<"sa", -1>>}),
+  UU(0, 0, {}), UU(0, 0, {<<"ma", 2>>}), UU(3, 0, {<<"sa", -1>>}), UU(0, 0, {<<"md", 2>>}), UU(0, 3, {<<"ga", 1>>}),
   \* thorough only from here
   UU(0, 0, {<<"mc", 1>>}), UU(0, 0, {<<"sb", 1>>}), UU(3, 0, {<<"mc", 1>>, <<"sb", -1>>}), UU(0, 0, {<<"ga", 1>>}),
   UU(0, 0, {<<"mb", 2>>}), UU(3, 0, {}), UU(0, 0, {<<"ma", 1>>, <<"mb", -1>>}), UU(-3, 0, {<<"ga", 1>>}),
   UU(3, 0, {<<"ma", 2>>}), UU(0, 10, {<<"ma", 1>>, <<"sa", -1>>}) >>
-NU == IF Size = 1 THEN 13 ELSE Len(AllUnits)
+NU == IF Size = 1 THEN 15 ELSE Len(AllUnits)
 MCUnits == [t \in 1..NU |-> AllUnits[t]]
 MK(n, d, k) == [m |-> <<n, d>>, k |-> k]
 AllMags == << MK(-3, 1, "int"), MK(2, 1, "int"), MK(1, 2, "float"), MK(2, 1, "Decimal"), MK(0, 1, "int"),
